@@ -42,25 +42,8 @@ def ObsEq (a b : SD) : Prop :=
 def Compatible (ρ : Option Bool) (parts : List (Option Bool × List TRec)) : Prop :=
   ∀ p ∈ parts, (p.1 = none ∨ p.1 = ρ) ∧ ∀ t ∈ p.2, t.rooted = ρ
 
-/-- ghost semantics of a history: which trees each array *should* hold, in order, if every operation did what its
-    name says (`add` appends, `ins` inserts like a Python list, `update`/`extend`/`+=` concatenate the source behind
-    the destination, `+` makes a new collection holding both); operations naming a missing register do nothing -/
-def ghostStep (g : List (List TRec)) : Op → List (List TRec)
-  | .new _ _ => g ++ [[]]
-  | .add d t => match g[d]? with
-    | some ts => g.set d (ts ++ [t])
-    | none => g
-  | .ins d i t => match g[d]? with
-    | some ts => g.set d (pyInsert i t ts)
-    | none => g
-  | .upd d s | .ext d s | .iadd d s => match g[d]?, g[s]? with
-    | some x, some y => g.set d (x ++ y)
-    | _, _ => g
-  | .plus a b => match g[a]?, g[b]? with
-    | some x, some y => g ++ [x ++ y]
-    | _, _ => g
-
-def ghostRun (ops : List Op) : List (List TRec) := ops.foldl ghostStep []
+/-! the ghost semantics `ghostStep` / `ghostRun` (which trees each array *should* hold) lives in `Model/C06.lean`: the driver
+   prints it next to the arrays and the harness compares it with its own book-keeping -/
 
 /-- an operation of a history respects rooting state `ρ` and settings `fl` -/
 def OpOK (ρ : Option Bool) (fl : Flags) : Op → Prop
@@ -68,6 +51,21 @@ def OpOK (ρ : Option Bool) (fl : Flags) : Op → Prop
   | .add _ t => t.rooted = ρ
   | .ins _ _ t => t.rooted = ρ
   | _ => True
+
+/-- the weight of a tree, if it has one, is a fraction with a positive denominator (what `Frac.parse` delivers) -/
+def WPos (t : TRec) : Prop := ∀ w, t.weight = some w → 0 < w.den
+
+/-- a predicate on the trees an operation brings in -/
+def OpT (T : TRec → Prop) : Op → Prop
+  | .add _ t => T t
+  | .ins _ _ t => T t
+  | _ => True
+
+/-- two fractions denote the same rational (neither is smaller) -/
+def Q.veq (a b : Q) : Prop := Q.lt a b = false ∧ Q.lt b a = false
+
+/-- (stored topology, credibility score) of every tree of a collection, in order -/
+def TA.scored (a : TA) : List (List Nat × Q) := a.rows.map fun r => (r.1, treeScore a.sd r.2.2.1 r.1)
 
 end DendroModel.C06
 
@@ -1062,6 +1060,280 @@ end DendroModel.C06
 namespace DendroModel.C06.Aux
 open DendroModel DendroModel.C06
 
+
+/-! ### closure of a predicate under every operation of a history -/
+
+structure Closed (P : TA → Prop) (T : TRec → Prop) : Prop where
+  new : ∀ r f, P (TA.new r f)
+  add : ∀ a a' t idx, P a → T t → addTree a t idx = .ok a' → P a'
+  half : ∀ a t, P a → T t → P (addTreeHalf a t)
+  upd : ∀ a b c, P a → P b → update a b = .ok c → P c
+
+theorem step_closed {P : TA → Prop} {T : TRec → Prop} (hc : Closed P T) {regs regs' : List TA} {op : Op}
+    (hr : ∀ a ∈ regs, P a) (hop : OpT T op) (h : step regs op = .ok regs') : ∀ a ∈ regs', P a := by
+  cases op with
+  | new r f =>
+    simp only [step] at h; cases h
+    intro a ha
+    rcases List.mem_append.1 ha with h1 | h1
+    · exact hr a h1
+    · simp at h1; subst h1; exact hc.new r f
+  | add d t =>
+    simp only [step] at h
+    split at h
+    · cases h
+    · rename_i x hx
+      split at h
+      · rename_i a' ha'
+        cases h
+        exact set_forall hr d a' (hc.add _ _ _ _ (hr x (List.mem_of_getElem? hx)) hop ha')
+      · cases h
+  | ins d i t =>
+    simp only [step] at h
+    split at h
+    · cases h
+    · rename_i x hx
+      split at h
+      · rename_i a' ha'
+        cases h
+        exact set_forall hr d a' (hc.add _ _ _ _ (hr x (List.mem_of_getElem? hx)) hop ha')
+      · cases h
+  | upd d s =>
+    simp only [step] at h
+    split at h
+    · rename_i x y hx hy
+      split at h
+      · rename_i a' ha'
+        cases h
+        exact set_forall hr d a' (hc.upd _ _ _ (hr x (List.mem_of_getElem? hx)) (hr y (List.mem_of_getElem? hy)) ha')
+      · cases h
+    · cases h
+  | ext d s =>
+    simp only [step, extend] at h
+    split at h
+    · rename_i x y hx hy
+      split at h
+      · rename_i a' ha'
+        cases h
+        exact set_forall hr d a' (hc.upd _ _ _ (hr x (List.mem_of_getElem? hx)) (hr y (List.mem_of_getElem? hy)) ha')
+      · cases h
+    · cases h
+  | iadd d s =>
+    simp only [step, extend] at h
+    split at h
+    · rename_i x y hx hy
+      split at h
+      · rename_i a' ha'
+        cases h
+        exact set_forall hr d a' (hc.upd _ _ _ (hr x (List.mem_of_getElem? hx)) (hr y (List.mem_of_getElem? hy)) ha')
+      · cases h
+    · cases h
+  | plus a b =>
+    simp only [step] at h
+    split at h
+    · rename_i x y hx hy
+      split at h
+      · rename_i c hcc
+        cases h
+        intro z hz
+        rcases List.mem_append.1 hz with h1 | h1
+        · exact hr z h1
+        · simp at h1; subst h1
+          simp only [plus, extend] at hcc
+          split at hcc
+          · cases hcc
+          · rename_i c0 hc0
+            exact hc.upd _ _ _ (hc.upd _ _ _ (hc.new _ _) (hr x (List.mem_of_getElem? hx)) hc0) (hr y (List.mem_of_getElem? hy)) hcc
+      · cases h
+    · cases h
+
+theorem afterError_closed {P : TA → Prop} {T : TRec → Prop} (hc : Closed P T) {regs : List TA} (op : Op) (e : Err)
+    (hr : ∀ a ∈ regs, P a) (hop : OpT T op) : ∀ a ∈ afterError regs op e, P a := by
+  simp only [afterError]
+  split
+  · split
+    · rename_i d t
+      split
+      · rename_i x hx
+        exact set_forall hr d _ (hc.half _ _ (hr x (List.mem_of_getElem? hx)) hop)
+      · exact hr
+    · rename_i d i t
+      split
+      · rename_i x hx
+        exact set_forall hr d _ (hc.half _ _ (hr x (List.mem_of_getElem? hx)) hop)
+      · exact hr
+    · exact hr
+  · exact hr
+
+theorem run_closed {P : TA → Prop} {T : TRec → Prop} (hc : Closed P T) (ops : List Op) : ∀ (regs : List TA),
+    (∀ a ∈ regs, P a) → (∀ op ∈ ops, OpT T op) → ∀ a ∈ (run regs ops).1, P a := by
+  induction ops with
+  | nil => intro regs hr _; simpa [run] using hr
+  | cons op ops ih =>
+    intro regs hr hops
+    have hop := hops op (by simp)
+    have hrest : ∀ o ∈ ops, OpT T o := fun o ho => hops o (by simp [ho])
+    simp only [run]
+    split
+    · rename_i regs' h
+      exact ih regs' (step_closed hc hr hop h) hrest
+    · rename_i e h
+      exact ih _ (afterError_closed hc op e hr hop) hrest
+
+/-! ### denominators stay positive -/
+
+def PosSD (sd : SD) : Prop := ∀ kc ∈ sd.counts, 0 < kc.2.den
+
+theorem add_den_pos {a b : Q} (ha : 0 < a.den) (hb : 0 < b.den) : 0 < (a.add b).den := by
+  simp only [Q.add]; exact Nat.mul_pos ha hb
+
+theorem mul_den_pos {a b : Q} (ha : 0 < a.den) (hb : 0 < b.den) : 0 < (a.mul b).den := by
+  simp only [Q.mul]; exact Nat.mul_pos ha hb
+
+theorem div_den_pos {a : Q} (b : Q) (ha : 0 < a.den) : 0 < (a.div b).den := by
+  simp only [Q.div]
+  split
+  · rename_i h; exact Nat.mul_pos ha (by omega)
+  · split
+    · rename_i h1 h2; exact Nat.mul_pos ha (by omega)
+    · simp [Q.zero]
+
+theorem bump_pos (s : Nat) (w : Q) (hw : 0 < w.den) : ∀ (l : List (Nat × Q)), (∀ kc ∈ l, 0 < kc.2.den) →
+    ∀ kc ∈ bump s w l, 0 < kc.2.den
+  | [], _ => by
+    intro kc hkc
+    simp only [bump, List.mem_singleton] at hkc
+    subst hkc
+    exact add_den_pos (by simp [Q.zero]) hw
+  | (k, v) :: r, h => by
+    intro kc hkc
+    simp only [bump] at hkc
+    split at hkc
+    · simp only [List.mem_cons] at hkc
+      rcases hkc with rfl | hkc
+      · exact add_den_pos (h (k, v) (by simp)) hw
+      · exact h kc (by simp [hkc])
+    · simp only [List.mem_cons] at hkc
+      rcases hkc with rfl | hkc
+      · exact h (k, v) (by simp)
+      · exact bump_pos s w hw r (fun x hx => h x (by simp [hx])) kc hkc
+
+theorem weightOf_pos (u : Bool) {t : TRec} (ht : WPos t) : 0 < (weightOf u t).den := by
+  simp only [weightOf]
+  cases hw : t.weight with
+  | none => simp [Q.one]
+  | some w =>
+    simp only
+    split
+    · exact ht w hw
+    · simp [Q.one]
+
+theorem countTree_pos {sd : SD} {t : TRec} (h : PosSD sd) (ht : WPos t) : PosSD (countTree sd t) := by
+  simp only [countTree]
+  rw [foldl_countEntry]
+  simp only [PosSD]
+  have h' : ∀ kc ∈ sd.counts, 0 < kc.2.den := h
+  have hw := weightOf_pos sd.flags.useWeights ht
+  generalize weightOf sd.flags.useWeights t = w at hw
+  have : ∀ (es : List Entry) (c : List (Nat × Q)), (∀ kc ∈ c, 0 < kc.2.den) →
+      ∀ kc ∈ es.foldl (fun c e => bump e.split w c) c, 0 < kc.2.den := by
+    intro es
+    induction es with
+    | nil => intro c hc; simpa using hc
+    | cons e es ih => intro c hc; simp only [List.foldl_cons]; exact ih _ (bump_pos _ _ hw c hc)
+  exact this t.entries sd.counts h'
+
+theorem merge_pos {a b : SD} (ha : PosSD a) (hb : PosSD b) : PosSD (a.merge b) := by
+  simp only [SD.merge]
+  rw [foldl_mergeEntry]
+  simp only [PosSD]
+  have : ∀ (kcs : List (Nat × Q)) (c : List (Nat × Q)), (∀ kc ∈ kcs, 0 < kc.2.den) → (∀ kc ∈ c, 0 < kc.2.den) →
+      ∀ kc ∈ kcs.foldl (fun c kc => bump kc.1 kc.2 c) c, 0 < kc.2.den := by
+    intro kcs
+    induction kcs with
+    | nil => intro c _ hc; simpa using hc
+    | cons x r ih =>
+      intro c hk hc
+      simp only [List.foldl_cons]
+      exact ih _ (fun y hy => hk y (by simp [hy])) (bump_pos _ _ (hk x (by simp)) c hc)
+  exact this b.counts a.counts hb ha
+
+theorem pos_closed : Closed (fun a => PosSD a.sd) WPos where
+  new := by intro r f; simp [TA.new, SD.new, PosSD]
+  add := by
+    intro a a' t idx ha ht h
+    simp only [addTree] at h
+    split at h
+    · cases h
+    · split at h
+      · cases h
+      · split at h <;> (cases h; exact countTree_pos ha ht)
+  half := by
+    intro a t ha ht
+    simp only [addTreeHalf]
+    split
+    · exact ha
+    · exact countTree_pos ha ht
+  upd := by
+    intro a b c ha hb h
+    simp only [update] at h
+    split at h
+    · cases h; exact ha
+    · split at h
+      · split at h
+        · cases h
+        · split at h
+          · cases h
+          · split at h
+            · cases h
+            · split at h
+              · cases h
+              · cases h; exact merge_pos ha hb
+      · cases h; exact merge_pos ha hb
+
+theorem getQ_pos (s : Nat) : ∀ (l : List (Nat × Q)), (∀ kc ∈ l, 0 < kc.2.den) → 0 < (getQ s l).den
+  | [], _ => by simp [getQ, Q.zero]
+  | (k, v) :: r, h => by
+    simp only [getQ]
+    split
+    · exact h (k, v) (by simp)
+    · exact getQ_pos s r (fun x hx => h x (by simp [hx]))
+
+theorem freq_pos {sd : SD} (h : PosSD sd) (s : Nat) : 0 < (sd.freq s).den := by
+  simp only [SD.freq]
+  split
+  · split
+    · simp [Q.one]
+    · exact div_den_pos _ (getQ_pos s _ h)
+  · simp [Q.zero]
+
+theorem treeScore_pos {sd : SD} (h : PosSD sd) (leafset : Nat) (splits : List Nat) : 0 < (treeScore sd leafset splits).den := by
+  simp only [treeScore]
+  have : ∀ (l : List Nat) (acc : Q), 0 < acc.den →
+      0 < (l.foldl (fun acc s => if qualifies leafset s then (let f := sd.freq s; if f.isZero then acc else acc.mul f) else acc) acc).den := by
+    intro l
+    induction l with
+    | nil => intro acc ha; simpa using ha
+    | cons x r ih =>
+      intro acc ha
+      simp only [List.foldl_cons]
+      apply ih
+      split
+      · split
+        · exact ha
+        · exact mul_den_pos ha (freq_pos h x)
+      · exact ha
+  exact this splits Q.one (by simp [Q.one])
+
+theorem scores_pos {a : TA} (h : PosSD a.sd) (l : List Q) (hs : scores a = some l) : ∀ q ∈ l, 0 < q.den := by
+  simp only [scores] at hs
+  split at hs
+  · cases hs
+  · cases hs
+    intro q hq
+    obtain ⟨p, _, rfl⟩ := List.mem_map.1 hq
+    exact treeScore_pos h _ _
+
 /-! ### schedules: the workers' files are a partition of the input files -/
 
 theorem flatMap_congr' {α β : Type} {f g : α → List β} : ∀ (l : List α), (∀ i ∈ l, f i = g i) → l.flatMap f = l.flatMap g
@@ -1133,6 +1405,12 @@ theorem zip4_proj {α β γ δ : Type} : ∀ (l1 : List α) (l2 : List β) (l3 :
   | x :: l1, y :: l2, z :: l3, w :: l4, h2, h3, h4 => by
     simp only [List.zip_cons_cons, List.map_cons]
     rw [zip4_proj l1 l2 l3 l4 (by simpa using h2) (by simpa using h3) (by simpa using h4)]
+
+theorem scores_eq_scored {a : TA} (ha : Aligned a) : scores a = some (a.scored.map (·.2)) := by
+  obtain ⟨a1, a2, a3, _⟩ := ha
+  simp only [scores, a2, bne_self_eq_false, Bool.false_eq_true, if_false, TA.scored, TA.rows, List.map_map]
+  rw [← zip4_proj a.splits a.elens a.leafsets a.weights a1 a2 a3, List.map_map]
+  rfl
 
 theorem insDesc_perm (x : Q × Nat) (l : List (Q × Nat)) : (insDesc x l).Perm (x :: l) := by
   induction l with
@@ -1422,8 +1700,9 @@ theorem mcc_scores_of_obs {a b : TA} (ha : Aligned a) (hb : Aligned b) (h : ObsE
   exact hr.map _
 
 /-- **mcc_topologies_of_obs** (clause c): with the same observable and the same rows up to order, the multiset of
-(stored topology, credibility score) pairs is the same — so whenever the maximiser is unique up to topology, both
-collections deliver the same maximum-credibility topology. -/
+(stored topology, credibility score) pairs (`TA.scored`) is the same.  Only the multiset is stated here (`rows` is a zip of
+the four lists: on a misaligned array it is silently the common prefix); what this means for the tree `mccIndex` reports —
+same maximum score, same topology when the maximiser is unique — is `mcc_of_obs`. -/
 theorem mcc_topologies_of_obs {a b : TA} (h : ObsEq a.sd b.sd) (hr : a.rows.Perm b.rows) :
     (a.rows.map fun r => (r.1, treeScore a.sd r.2.2.1 r.1)).Perm
       (b.rows.map fun r => (r.1, treeScore b.sd r.2.2.1 r.1)) := by
@@ -1457,7 +1736,9 @@ theorem async_sentinel_every_file_once (nw nfiles : Nat) (choices : List Nat) (h
 
 /-- **sumtrees_async_schedule_independent** (clause d, with the queue): with the end-marker protocol, whatever the
 schedule of item deliveries and worker moves (`choices`) and whatever the arrival order of the results, the parallel
-run returns (never hangs), never fails, and yields the observable and the rows (up to order) of the serial run. -/
+run returns (never hangs), never fails, and yields the observable and the rows (up to order) of the serial run.
+Modelling assumptions doing work here: there is at least one worker; every worker that stops posts exactly one result
+(`arrival` is a permutation of the workers); a worker that posts an exception instead, or dies, is outside the model. -/
 theorem sumtrees_async_schedule_independent (ρ : Option Bool) (fl : Flags) (r : Option Bool) (nw : Nat)
     (choices arrival : List Nat) (files : List (List TRec)) (hnw : 0 < nw) (harr : arrival.Perm (List.range nw))
     (htrees : ∀ f ∈ files, ∀ t ∈ f, t.rooted = ρ) (hr : r = none ∨ r = ρ) :
@@ -1514,15 +1795,65 @@ theorem sumtrees_async_schedule_independent (ρ : Option Bool) (fl : Flags) (r :
 
 /-- **mcc_index_spec** (clause c): `mccIndex` — the index `calculate_log_product_of_split_supports` reports — points at a
 tree whose credibility score is a maximum of all scores (no score is strictly greater, in the order of the rationals),
-and it is the *first* maximiser (every earlier tree scores strictly less).  Hypothesis: the score fractions have
-positive denominators (true of every score computed from positive tree weights; un-normalised fractions with a zero
-denominator would not be ordered). -/
+and it is the *first* maximiser (every earlier tree scores strictly less).  Hypothesis `hpos`: the score fractions have
+positive denominators (un-normalised fractions with a zero denominator are not ordered by `Q.lt`); `scores_den_pos` proves
+it for every array reachable by a history whose tree weights come out of `Frac.parse`. -/
 theorem mcc_index_spec (a : TA) (l : List Q) (hs : scores a = some l) (hne : l ≠ []) (hpos : ∀ q ∈ l, 0 < q.den) :
     ∃ j m, mccIndex a = some j ∧ l[j]? = some m ∧
       (∀ (k : Nat) (x : Q), l[k]? = some x → Q.lt m x = false) ∧
       (∀ (k : Nat) (x : Q), k < j → l[k]? = some x → Q.lt x m = true) := by
   obtain ⟨j, m, h, hb⟩ := argmax_spec l hpos hne
   exact ⟨j, m, by simp [mccIndex, hs, h], hb.1, hb.2.1, hb.2.2⟩
+
+/-- **scores_den_pos**: after *any* history (compatible or not, rejected operations and failed asserts included) whose
+trees carry weights with positive denominators — all `Frac.parse` can deliver — every credibility score of every array is
+a fraction with a positive denominator.  This discharges the hypothesis `hpos` of `mcc_index_spec` for every array the
+driver can reach. -/
+theorem scores_den_pos (ops : List Op) (hw : ∀ op ∈ ops, OpT WPos op) :
+    ∀ a ∈ (run [] ops).1, ∀ l, scores a = some l → ∀ q ∈ l, 0 < q.den := by
+  intro a ha l hs
+  exact scores_pos (run_closed pos_closed ops [] (by simp) hw a ha) l hs
+
+/-- **mcc_of_obs** (clause c): two aligned, non-empty collections with the same observable and the same rows up to order
+(what `histories_agree` / `merge_any_partition` / `sumtrees_*_schedule_independent` deliver) report — each through its own
+first-strict-maximum index `mccIndex` — trees whose credibility scores are the same rational number; and whenever the
+maximiser of the first is unique up to topology (every tree scoring as much stores the same splits), the tree reported by
+the second has that very topology.  Positivity of the score denominators is what `scores_den_pos` provides. -/
+theorem mcc_of_obs {a b : TA} (ha : Aligned a) (hb : Aligned b) (h : ObsEq a.sd b.sd) (hr : a.rows.Perm b.rows)
+    (hpa : ∀ l, scores a = some l → ∀ q ∈ l, 0 < q.den) (hpb : ∀ l, scores b = some l → ∀ q ∈ l, 0 < q.den)
+    (hne : a.splits ≠ []) :
+    ∃ i j pa pb, mccIndex a = some i ∧ mccIndex b = some j ∧ a.scored[i]? = some pa ∧ b.scored[j]? = some pb ∧
+      Q.veq pa.2 pb.2 ∧ ((∀ p ∈ a.scored, Q.veq p.2 pa.2 → p.1 = pa.1) → pb.1 = pa.1) := by
+  have hperm : a.scored.Perm b.scored := mcc_topologies_of_obs h hr
+  have hsa := scores_eq_scored ha
+  have hsb := scores_eq_scored hb
+  have hlen : a.scored.length = a.splits.length := by
+    obtain ⟨a1, a2, a3, _⟩ := ha
+    simp [TA.scored, TA.rows, List.length_zip]; omega
+  have hnea : a.scored.map (·.2) ≠ [] := by
+    intro e
+    have : a.scored.length = 0 := by simpa using congrArg List.length e
+    rw [hlen] at this
+    exact hne (List.length_eq_zero_iff.1 this)
+  have hneb : b.scored.map (·.2) ≠ [] := by
+    intro e
+    have h0 : b.scored.length = 0 := by simpa using congrArg List.length e
+    rw [← hperm.length_eq] at h0
+    exact hnea (by simp [List.length_eq_zero_iff.1 h0])
+  obtain ⟨i, ma, hi, hia, hmaxa, _⟩ := mcc_index_spec a _ hsa hnea (hpa _ hsa)
+  obtain ⟨j, mb, hj, hjb, hmaxb, _⟩ := mcc_index_spec b _ hsb hneb (hpb _ hsb)
+  rw [List.getElem?_map] at hia hjb
+  obtain ⟨pa, hpa1, hpa2⟩ := Option.map_eq_some_iff.1 hia
+  obtain ⟨pb, hpb1, hpb2⟩ := Option.map_eq_some_iff.1 hjb
+  have hpb_in_a : pb ∈ a.scored := hperm.mem_iff.2 (List.mem_of_getElem? hpb1)
+  have hpa_in_b : pa ∈ b.scored := hperm.mem_iff.1 (List.mem_of_getElem? hpa1)
+  have h1 : Q.lt pa.2 pb.2 = false := by
+    obtain ⟨k, hk⟩ := List.getElem?_of_mem (List.mem_map.2 ⟨pb, hpb_in_a, rfl⟩)
+    rw [hpa2]; exact hmaxa k _ hk
+  have h2 : Q.lt pb.2 pa.2 = false := by
+    obtain ⟨k, hk⟩ := List.getElem?_of_mem (List.mem_map.2 ⟨pa, hpa_in_b, rfl⟩)
+    rw [hpb2]; exact hmaxb k _ hk
+  exact ⟨i, j, pa, pb, hi, hj, hpa1, hpb1, ⟨h1, h2⟩, fun hu => hu pb hpb_in_a ⟨h2, h1⟩⟩
 
 /-! ### non-vacuity: the hypotheses are satisfiable and the statements say something on a concrete sample -/
 
@@ -1588,6 +1919,15 @@ example : (match runAsync none exFl false 2 [1, 1, 1, 1] [0, 1] [[exT1]] with | 
 example : (match (run [] exSerial).1[0]? with
     | some a => ((scores a).map (fun l => (l.length, l.all (fun q => 0 < q.den))), mccIndex a)
     | none => (none, none)) = (some (3, true), some 0) := by decide
+/-- `scores_den_pos` / `mcc_of_obs`: the two example histories satisfy the weight hypothesis (exT2 carries weight 3/2),
+    their arrays 0 and 4 are aligned, non-empty and, by `histories_agree`, obs-equal with rows equal up to order -/
+example : (∀ op ∈ exSerial, OpT WPos op) ∧ (∀ op ∈ exNested, OpT WPos op) := by
+  constructor <;> intro op hop <;> simp only [exSerial, exNested, List.mem_cons, List.not_mem_nil, or_false] at hop <;>
+    rcases hop with rfl | rfl | rfl | rfl | rfl | rfl | rfl | rfl | rfl <;> simp [OpT, WPos, exT1, exT2]
+/-- … and there both report index 0, a tree with the topology of exT1, although the rows are stored in different orders -/
+example : ((run [] exSerial).1[0]?.map mccIndex, (run [] exNested).1[4]?.map mccIndex,
+    (run [] exSerial).1[0]?.map (fun a => a.splits[0]?), (run [] exNested).1[4]?.map (fun a => a.splits[0]?)) =
+    (some (some 0), some (some 0), some (some (exT1.entries.map (·.split))), some (some (exT1.entries.map (·.split)))) := by decide
 end Examples
 
 end DendroModel.C06
